@@ -288,48 +288,68 @@ func c07AccumulateAs(c *Ctx, m *Module, rule string) {
 		if !ok {
 			continue
 		}
-		base, fld, ok := fieldLoad(mu.Map)
-		if !ok || (fld != "Stacks" && fld != "Counters") {
-			continue
+		// the destination map: prog.F directly, or a choice (phi) among prog.Stacks / prog.Counters
+		type target struct {
+			base  ssa.Value
+			fld   string
+			facts []Fact
 		}
-		if !strings.HasPrefix(describe(base), "internal/upload.findProgReport(") {
-			continue
+		var targets []target
+		if base, fld, ok := fieldLoad(mu.Map); ok {
+			targets = append(targets, target{base, fld, factsAt(mu)})
+		} else if phi, ok := strip(mu.Map).(*ssa.Phi); ok {
+			for i, e := range phi.Edges {
+				base, fld, ok := fieldLoad(e)
+				if !ok {
+					targets = nil
+					break
+				}
+				pred := phi.Block().Preds[i]
+				fs := append(append(append([]Fact{}, blockFacts(pred)...), lastBranchFact(pred, phi.Block())...), factsAt(mu)...)
+				targets = append(targets, target{base, fld, fs})
+			}
 		}
-		n++
-		add, isAdd := mu.Value.(*ssa.BinOp)
-		okAcc := false
-		if isAdd && add.Op == token.ADD {
-			for _, pair := range [][2]ssa.Value{{add.X, add.Y}, {add.Y, add.X}} {
-				l, isL := pair[0].(*ssa.Lookup)
-				if isL && describe(l.X) == describe(mu.Map) && l.Index == mu.Key {
-					// the other operand is int64(v) of the ranged value paired with the key
-					cv, isC := pair[1].(*ssa.Convert)
-					if isC {
-						ke, ok1 := strip(mu.Key).(*ssa.Extract)
-						ve, ok2 := strip(cv.X).(*ssa.Extract)
-						if ok1 && ok2 && ke.Tuple == ve.Tuple && ke.Index == 1 && ve.Index == 2 {
-							okAcc = true
+		for _, tg := range targets {
+			base, fld, facts := tg.base, tg.fld, tg.facts
+			if (fld != "Stacks" && fld != "Counters") || !strings.HasPrefix(describe(base), "internal/upload.findProgReport(") {
+				continue
+			}
+			n++
+			add, isAdd := mu.Value.(*ssa.BinOp)
+			okAcc := false
+			if isAdd && add.Op == token.ADD {
+				for _, pair := range [][2]ssa.Value{{add.X, add.Y}, {add.Y, add.X}} {
+					l, isL := pair[0].(*ssa.Lookup)
+					if isL && describe(l.X) == describe(mu.Map) && l.Index == mu.Key {
+						// the other operand is int64(v) of the ranged value paired with the key
+						cv, isC := pair[1].(*ssa.Convert)
+						if isC {
+							ke, ok1 := strip(mu.Key).(*ssa.Extract)
+							ve, ok2 := strip(cv.X).(*ssa.Extract)
+							if ok1 && ok2 && ke.Tuple == ve.Tuple && ke.Index == 1 && ve.Index == 2 {
+								okAcc = true
+							}
 						}
 					}
 				}
 			}
-		}
-		r.Check(rule, "createReport/prog."+fld+"[k] += v", m.Pos(mu.Pos()), okAcc,
-			"the fold must add the file's value to the entry of the same key (never overwrite); got "+describe(mu.Value))
-		isStack := hasFact(factsAt(mu), callResultIs("internal/counter.IsStackCounter", true, func(a []ssa.Value, _ *ssa.Call) bool { return a[0] == mu.Key }))
-		notStack := hasFact(factsAt(mu), callResultIs("internal/counter.IsStackCounter", false, func(a []ssa.Value, _ *ssa.Call) bool { return a[0] == mu.Key }))
-		r.Check(rule, "createReport/prog."+fld+" selected by the newline test", m.Pos(mu.Pos()), (fld == "Stacks" && isStack) || (fld == "Counters" && notStack),
-			"names with a newline go to Stacks, all others to Counters")
-		// the ranged map is x.Count of the file parsed in this iteration, and prog = findProgReport(x.Meta, report)
-		if ke, ok := strip(mu.Key).(*ssa.Extract); ok {
-			if nx, ok := ke.Tuple.(*ssa.Next); ok {
-				rg := nx.Iter.(*ssa.Range)
-				cb, cf, okc := fieldLoad(rg.X)
-				fp := strip(base).(*ssa.Call)
-				mb, mf, okm := fieldLoad(fp.Call.Args[0])
-				r.Check(rule, "createReport/"+fld+" folded from the same parsed file as the identity", m.Pos(mu.Pos()),
-					okc && okm && cf == "Count" && mf == "Meta" && strip(cb) == strip(mb) && strings.HasPrefix(describe(cb), "(*internal/upload.uploader).parseCountFile("),
-					"counts and identity metadata must come from one parse result")
+			r.Check(rule, "createReport/prog."+fld+"[k] += v", m.Pos(mu.Pos()), okAcc,
+				"the fold must add the file's value to the entry of the same key (never overwrite); got "+describe(mu.Value))
+			isStack := hasFact(facts, callResultIs("internal/counter.IsStackCounter", true, func(a []ssa.Value, _ *ssa.Call) bool { return a[0] == mu.Key }))
+			notStack := hasFact(facts, callResultIs("internal/counter.IsStackCounter", false, func(a []ssa.Value, _ *ssa.Call) bool { return a[0] == mu.Key }))
+			r.Check(rule, "createReport/prog."+fld+" selected by the newline test", m.Pos(mu.Pos()), (fld == "Stacks" && isStack) || (fld == "Counters" && notStack),
+				"names with a newline go to Stacks, all others to Counters")
+			// the ranged map is x.Count of the file parsed in this iteration, and prog = findProgReport(x.Meta, report)
+			if ke, ok := strip(mu.Key).(*ssa.Extract); ok {
+				if nx, ok := ke.Tuple.(*ssa.Next); ok {
+					rg := nx.Iter.(*ssa.Range)
+					cb, cf, okc := fieldLoad(rg.X)
+					fp := strip(base).(*ssa.Call)
+					mb, mf, okm := fieldLoad(fp.Call.Args[0])
+					r.Check(rule, "createReport/"+fld+" folded from the same parsed file as the identity", m.Pos(mu.Pos()),
+						okc && okm && cf == "Count" && mf == "Meta" && strip(cb) == strip(mb) && strings.HasPrefix(describe(cb), "(*internal/upload.uploader).parseCountFile("),
+						"counts and identity metadata must come from one parse result")
+				}
 			}
 		}
 	}
